@@ -4,9 +4,16 @@ import os, re, shutil, sys, json, time
 sys.path.insert(0, os.path.dirname(os.path.abspath(__file__)))
 import mutate, variants
 
-def apply(d, f, old, new):
+def apply(d, f, old, new, nth=None):
     p = os.path.join(d, f)
     s = open(p).read()
+    if nth is not None:
+        parts = s.split(old)
+        if len(parts) <= nth:
+            raise SystemExit("variant anchor found %d times in %s, need occurrence %d" % (len(parts) - 1, f, nth))
+        s = old.join(parts[:nth]) + new + old.join(parts[nth:])
+        open(p, "w").write(s)
+        return
     if s.count(old) != 1:
         raise SystemExit("variant anchor found %d times in %s: %r" % (s.count(old), f, old[:60]))
     open(p, "w").write(s.replace(old, new))
@@ -23,7 +30,7 @@ def main(a):
                 diff = subprocess.check_output(["git", "-C", "/repo", "show", v["revert"]])
                 subprocess.run(["patch", "-R", "-p1", "-s"], input=diff, cwd=d, check=True)
             else:
-                apply(d, v["file"], v["old"], v["new"])
+                apply(d, v["file"], v["old"], v["new"], v.get("nth"))
             for (f, o, n) in v.get("extra", []):
                 apply(d, f, o, n)
             pids = [v["pid"]] + v.get("also", [])
